@@ -23,27 +23,32 @@ import struct
 import warnings
 import zlib
 
+import functools
+
 import numpy as np
 
 from . import lib
 from . import vtkenc as V
 
-HEADER = """From Coq Require Import Ascii String NArith ZArith List Bool.
+# block compression is deterministic; block size 1 asks for the same 256 blocks over and over
+V._compress = functools.lru_cache(maxsize=400000)(V._compress)
+
+HEADER = """From Coq Require Import NArith ZArith List Bool Uint63.
 From FC Require Import Model.Codec.
 Import ListNotations.
 Local Open Scope N_scope.
-Definition T (l : list (string * string)) := table_decompress (map (fun p => (hexb (fst p), hexb (snd p))) l).
-Definition oh (s : option string) : option bytes := option_map hexb s.
+(* bytes arrive packed seven to a primitive integer (little endian), which keeps the terms small *)
+Definition nb (w : int) : N := Z.to_N (Uint63.to_Z (w land 255)%uint63).
+Definition b7 (w : int) : bytes :=
+  [nb w; nb (w >> 8); nb (w >> 16); nb (w >> 24); nb (w >> 32); nb (w >> 40); nb (w >> 48)]%uint63.
+Definition ub (len : N) (l : list int) : bytes := takeN len (flat_map b7 l).
 (* one file: every array must decode to the expected payload *)
-Definition rdfile (tbl : list (string * string)) (compressed : bool) (bo : border) (h : htype) (e : encoding)
-  (appendix : string) (arrays : list (placement * option string)) : list bool :=
-  let app := hexb appendix in
-  map (fun a => opt_bytes_eqb (read_data_array (T tbl) false compressed bo h e app (fst a)) (oh (snd a))) arrays.
-Definition rdfile_val (tbl : list (string * string)) (compressed : bool) (bo : border) (h : htype) (e : encoding)
-  (appendix : string) (arrays : list (placement * option string)) : list (option bytes) :=
-  let app := hexb appendix in
-  map (fun a => read_data_array (T tbl) false compressed bo h e app (fst a)) arrays.
-Definition In_ (s : string) := Inline (hexb s).
+Definition rdfile (tbl : list (bytes * bytes)) (compressed : bool) (bo : border) (h : htype) (e : encoding)
+  (app : bytes) (arrays : list (placement * option bytes)) : list bool :=
+  map (fun a => opt_bytes_eqb (read_data_array (table_decompress tbl) EMPTY_OK compressed bo h e app (fst a)) (snd a)) arrays.
+Definition rdfile_val (tbl : list (bytes * bytes)) (compressed : bool) (bo : border) (h : htype) (e : encoding)
+  (app : bytes) (arrays : list (placement * option bytes)) : list (option bytes) :=
+  map (fun a => read_data_array (table_decompress tbl) EMPTY_OK compressed bo h e app (fst a)) arrays.
 """
 
 NP = {"Int8": "i1", "UInt8": "u1", "Int16": "i2", "UInt16": "u2", "Int32": "i4", "UInt32": "u4", "Int64": "i8",
@@ -167,8 +172,31 @@ def matrix_configs():
 def rand_cfg(rng):
     fmt = rng.choice(["ascii", "binary", "binary", "appended-base64", "appended-base64", "appended-raw", "appended-raw"])
     comp = rng.choice([None, None, "zlib", "lz4", "lzma"])
-    bs = rng.choice(BLOCK_SIZES + [2, 3, 5, 63, 65])
+    bs = rng.choice(BLOCK_SIZES[:3] * 3 + [32768, 2, 3, 5, 63, 65])
     return V.Cfg(fmt, comp, bs, rng.choice(["UInt32", "UInt64"]), rng.choice(["<", ">"]), rng.random() < 0.5 and comp is None)
+
+
+def rand_pair(rng):
+    """a configuration and a data set whose 1-byte point / cell field has a payload length on a boundary of that
+    configuration: block size (0, bs-1, bs, bs+1, 2bs, 2bs+1), every residue mod 3, or a header byte that is one of the
+    fallback parser's delimiters"""
+    cfg = rand_cfg(rng)
+    r = rng.random()
+    if r < 0.2:
+        return cfg, gen_vtp(rng)
+    if r < 0.26:
+        return cfg, gen_vtu(rng, ncells=0)        # empty connectivity / offsets / types / cell data arrays
+    if cfg.compressor and cfg.block_size <= 65:
+        bs = cfg.block_size
+        cand = [bs - 1, bs, bs + 1, 2 * bs, 2 * bs + 1]
+    elif cfg.fmt == "appended-raw":
+        cand = [10, 32, 34, 38, 60, 62, 95, 1, 2, 3]
+    else:
+        cand = TARGET_N
+    a, b = rng.choice(cand), rng.choice(cand)
+    npts = max(a, 1)
+    ncells = b if b <= 40 or rng.random() < 0.3 else rng.choice([1, 2, 3, 4, 5, 6])
+    return cfg, gen_vtu(rng, npts=npts, ncells=ncells)
 
 
 # ------------------------------------------------------------------------------------------------ files
@@ -347,24 +375,33 @@ def decompress_table(cfg, w):
     return tbl
 
 
+def header():
+    return HEADER.replace("EMPTY_OK", EMPTY_OK)
+
+
 def coq_cfg(cfg):
     return (lib.cbool(cfg.compressor is not None), "LE" if cfg.byte_order == "<" else "BE",
             "H32" if cfg.header_type == "UInt32" else "H64", "Raw" if cfg.fmt == "appended-raw" else "B64")
 
 
 def hx(b):
-    return '"' + bytes(b).hex() + '"%string'
+    """Gallina term for a byte string (seven bytes per primitive integer)"""
+    b = bytes(b)
+    if not b:
+        return "(ub 0 (@nil int))"
+    ints = [str(int.from_bytes(b[i:i + 7], "little")) for i in range(0, len(b), 7)]
+    return f"(ub {len(b)} [{';'.join(ints)}]%uint63)"
 
 
 def model_expr(cfg, app, tbl, arrays, fn="rdfile"):
     """arrays: list of (placement, expected bytes | None)"""
     comp, bo, h, e = coq_cfg(cfg)
-    t = lib.clist([f"({hx(k)}, {hx(v)})" for k, v in tbl.items()], "(string * string)")
+    t = lib.clist([f"({hx(k)}, {hx(v)})" for k, v in tbl.items()], "(bytes * bytes)")
     arr = []
     for pl, exp in arrays:
-        p = f"In_ {hx(pl[1])}" if pl[0] == "inline" else f"Appended {pl[1]}"
+        p = f"Inline {hx(pl[1])}" if pl[0] == "inline" else f"Appended {pl[1]}"
         arr.append(f"({p}, {'None' if exp is None else '(Some ' + hx(exp) + ')'})")
-    return f"{fn} {t} {comp} {bo} {h} {e} {hx(app)} {lib.clist(arr, '(placement * option string)')}"
+    return f"{fn} {t} {comp} {bo} {h} {e} {hx(app)} {lib.clist(arr, '(placement * option bytes)')}"
 
 
 def lowlevel_impl(cfg, app, pl):
@@ -445,8 +482,8 @@ def b64_tie(ctx, n):
         except Exception:   # noqa: BLE001
             d = None
         cases.append((s, d))
-    exprs = [f"opt_bytes_eqb (b64dec (hexb {hx(s)})) ({'None' if d is None else 'Some (hexb ' + hx(d) + ')'})" for s, d in cases]
-    vals = ctx.coq_eval(HEADER, exprs, shard=800, name="c05b64")
+    exprs = [f"opt_bytes_eqb (b64dec {hx(s)}) ({'None' if d is None else 'Some ' + hx(d)})" for s, d in cases]
+    vals = ctx.coq_eval(header(), exprs, shard=800, name="c05b64")
     for (s, d), v in zip(cases, vals):
         ctx.tie("refinement Base64Encoder.decode vs b64dec")
         if v is not True:
@@ -456,7 +493,17 @@ def b64_tie(ctx, n):
 
 
 # ------------------------------------------------------------------------------------------------ one case
-COQ_LIMIT = 9000       # bytes (appendix + inline texts + table) handed to the model per file
+# Model.Codec.read_compressed has a switch for the one place where the pinned code is known to deviate from the statement
+# (finding F-C05a, np.concatenate([]) for zero blocks): "false" = the code as it is.  Set to "true" once /repo returns b""
+# for a header with zero blocks (and use C05_full_statement_after_repair as the property theorem).
+EMPTY_OK = "false"
+WHAT_EMPTY = ("F-C05a: a compressed file with an empty data array (zero blocks, e.g. a mesh without cells) cannot be read "
+              "(ValueError from np.concatenate([])); the same data set reads fine uncompressed or as ascii")
+WHAT_POLY_RAISE = ("F-C05b: vtu with POLYGON cells of different corner counts: reading raises IndexError "
+                   "(every cell of a type is assumed to have as many corners as the first one)")
+WHAT_POLY_TRUNC = ("F-C05b: vtu with POLYGON cells of different corner counts: connectivity silently wrong "
+                   "(every cell of a type is read with the corner count of the first one)")
+COQ_LIMIT = 16000       # bytes (appendix + inline texts + table) handed to the model per file
 
 
 def run_case(ctx, ds, cfg, idx, pending, with_model=True):
@@ -490,7 +537,8 @@ def run_case(ctx, ds, cfg, idx, pending, with_model=True):
                         ctx.count(f"payload = {tag} (bs={bs})")
     if bad:
         empty_compressed = cfg.compressor is not None and cfg.fmt != "ascii" and any(len(r["payload"]) == 0 for r in w.records)
-        what = ("compressed file with an empty data array cannot be read: " if empty_compressed else "file content differs from the logical data set: ") + "; ".join(bad)[:300]
+        what = (WHAT_EMPTY if empty_compressed and bad[0].startswith("reading raised ValueError") else
+                "file content differs from the logical data set: " + "; ".join(bad)[:300])
         ctx.violation("E4", what, case, impl=bad, cfg=cfg.key())
     ctx.traces_validated += 1
     if cfg.fmt == "ascii" or not with_model:
@@ -509,7 +557,39 @@ def run_case(ctx, ds, cfg, idx, pending, with_model=True):
     else:
         ctx.tie("refinement get_decompressed_data vs read_data_array", len(low))
     pending.append({"cfg": cfg, "app": app, "tbl": tbl, "arrays": [(pl, lo) for (_, pl), lo in zip(arrays, low)],
-                    "payloads": [r["payload"] for r, _ in arrays], "names": [r["name"] for r, _ in arrays], "case": case})
+                    "payloads": [r["payload"] for r, _ in arrays], "names": [r["name"] for r, _ in arrays],
+                    "metas": [(r["name"], r["vtk_type"], r["ncomp"]) for r, _ in arrays], "case": case})
+
+
+def values_tie(ctx, src, n):
+    """np.frombuffer(payload, dtype.newbyteorder(bo)) + reshape(NumberOfComponents) vs Model.Codec.decode_values / reshape:
+    integers as values, floats as bit patterns"""
+    rng = ctx.rng
+    todo = []
+    pool = [p for p in src if not p.get("damaged")]
+    rng.shuffle(pool)
+    for p in pool:
+        for payload, meta in zip(p["payloads"], p["metas"]):
+            if len(todo) < n and 0 < len(payload) <= 200 and rng.random() < 0.5:
+                todo.append((p["cfg"], payload, meta))
+    exprs, want = [], []
+    for cfg, payload, (name, vt, nc) in todo:
+        dt = np.dtype(NP[vt]).newbyteorder(cfg.byte_order)
+        vals = np.frombuffer(payload, dt)
+        if nc > 1:
+            vals = vals.reshape(int(len(vals) / nc), nc)
+        as_int = vals.astype(vals.dtype.newbyteorder("=")).view(("u" if vt.startswith("Float") else NP[vt][0]) + NP[vt][1])
+        want.append([[int(x)] for x in as_int] if nc <= 1 else [[int(x) for x in row] for row in as_int])
+        ty = ("VFloat" if vt.startswith("Float") else "VInt" if NP[vt][0] == "i" else "VUInt") + f" {NP[vt][1]}"
+        bo = "LE" if cfg.byte_order == "<" else "BE"
+        exprs.append(f"match decode_values {bo} ({ty}) {hx(payload)} with Some v => reshape {nc} v | None => None end")
+    vals = ctx.coq_eval(header(), exprs, shard=40, name="c05vals")
+    for (cfg, payload, meta), w, v in zip(todo, want, vals):
+        got = None if v == "None" else [list(r) for r in v[1]]
+        ctx.tie("T2 decode_values/reshape = np.frombuffer/reshape")
+        if got != w:
+            ctx.violation("E2", f"values of {meta} ({cfg.key()}): model {str(got)[:80]} != numpy {str(w)[:80]}", {"payload": payload.hex(), "meta": meta},
+                          found_input=False)
 
 
 def damaged_ties(ctx, pending_src, n):
@@ -534,7 +614,7 @@ def damaged_ties(ctx, pending_src, n):
         if isinstance(low, str):
             return
         out.append({"cfg": cfg, "app": app2, "tbl": {}, "arrays": [(pl2, low)], "payloads": [p["payloads"][k]],
-                    "names": [p["names"][k]], "case": {"damaged": True, "cfg": cfg.as_dict(), "cut": cut}, "damaged": True})
+                    "names": [p["names"][k]], "metas": [p["metas"][k]], "case": {"damaged": True, "cfg": cfg.as_dict(), "cut": cut}, "damaged": True})
     return out
 
 
@@ -542,7 +622,7 @@ def flush_model(ctx, pending):
     if not pending:
         return
     exprs = [model_expr(p["cfg"], p["app"], p["tbl"], p["arrays"]) for p in pending]
-    vals = ctx.coq_eval(HEADER, exprs, shard=60, name="c05")
+    vals = ctx.coq_eval(header(), exprs, shard=max(8, min(60, len(exprs) // 12 + 1)), name="c05")
     redo = []
     for p, v in zip(pending, vals):
         if all(x is True for x in v):
@@ -550,7 +630,7 @@ def flush_model(ctx, pending):
             continue
         redo.append(p)
     if redo:
-        vals = ctx.coq_eval(HEADER, [model_expr(p["cfg"], p["app"], p["tbl"], p["arrays"], fn="rdfile_val") for p in redo], shard=60, name="c05v")
+        vals = ctx.coq_eval(header(), [model_expr(p["cfg"], p["app"], p["tbl"], p["arrays"], fn="rdfile_val") for p in redo], shard=60, name="c05v")
         for p, v in zip(redo, vals):
             for (pl, low), mv, name, payload in zip(p["arrays"], v, p["names"], p["payloads"]):
                 mb = None if mv == "None" else bytes(mv[1])
@@ -562,17 +642,25 @@ def flush_model(ctx, pending):
 
 # ------------------------------------------------------------------------------------------------ side streams
 def polygon_stream(ctx, n):
-    """polygons of different sizes in a .vtu (the same logical content is read correctly from a .vtp)"""
+    """polygons of different sizes in a .vtu (valid VTK; the same logical content is read correctly from a .vtp)"""
     rng = ctx.rng
-    for i in range(n):
-        npts = rng.randint(4, 9)
-        cells = [[7, [rng.randrange(npts) for _ in range(rng.choice([3, 4, 5]))]] for _ in range(rng.randint(2, 4))]
-        if len({len(c[1]) for c in cells}) == 1:
-            cells[0][1].append(0)
+    fixed_pts = [[0.0, 0.0, 0.0], [1.0, 0.0, 0.0], [1.0, 1.0, 0.0], [0.0, 1.0, 0.0], [2.0, 0.0, 0.0], [2.0, 1.0, 0.0]]
+    fixed = [[[7, [0, 1, 2, 3]], [7, [1, 4, 5]]], [[7, [1, 4, 5]], [7, [0, 1, 2, 3]]]]
+    for i in range(n + len(fixed)):
+        if i < len(fixed):
+            pts, cells = fixed_pts, fixed[i]
+        else:
+            npts = rng.randint(4, 9)
+            pts = gen_points(rng, npts, "Float64")
+            cells = [[7, [rng.randrange(npts) for _ in range(rng.choice([3, 4, 5]))]] for _ in range(rng.randint(2, 4))]
+            if len({len(c[1]) for c in cells}) == 1:
+                cells[0][1].append(0)
+            if rng.random() < 0.4:
+                cells.insert(rng.randrange(len(cells) + 1), [5, [0, 1, 2]])       # plus a cell of another type
         ds = {"kind": "vtu", "coord_type": "Float64", "conn_type": "Int64", "types_type": "UInt8",
-              "points": gen_points(rng, npts, "Float64"), "cells": cells, "pf": [], "cf": [["c", "Int32", 1, list(range(len(cells)))]],
+              "points": pts, "cells": cells, "pf": [], "cf": [["c", "Int32", 1, list(range(len(cells)))]],
               "order": ["PointData", "CellData", "Points", "Cells"]}
-        cfg = V.Cfg(rng.choice(["ascii", "binary"]))
+        cfg = V.Cfg("ascii" if i < len(fixed) else rng.choice(["ascii", "binary"]))
         path = os.path.join(str(ctx.workdir), f"poly{i}.vtu")
         build_file(path, ds, cfg)
         got = read_impl(path)
@@ -581,8 +669,9 @@ def polygon_stream(ctx, n):
         ctx.case({"polygons": cells}, True)
         ctx.count("stream:vtu polygons of different sizes")
         if bad:
-            ctx.violation("E4", "vtu with polygons of different sizes: " + "; ".join(bad)[:260], {"cfg": cfg.as_dict(), "ds": ds},
-                          impl=bad, cfg=cfg.key())
+            what = WHAT_POLY_RAISE if bad[0].startswith("reading raised IndexError") else (
+                WHAT_POLY_TRUNC if bad[0].startswith("cells per type") else "vtu with polygons of different sizes: " + "; ".join(bad)[:200])
+            ctx.violation("E4", what, {"cfg": cfg.as_dict(), "ds": ds}, impl=bad, cfg=cfg.key())
 
 
 def large_block_stream(ctx, quick):
@@ -614,8 +703,19 @@ def run(ctx):
     b64_tie(ctx, 1500 if quick else 20000)
     pending = []
     idx = 0
-    # (a) the full configuration matrix on fixed-shape data sets
-    n_matrix = 2 if quick else 40
+    # (0) corpus: minimised past failures, always first
+    import glob
+    import json
+    for f in sorted(glob.glob(str(lib.VERIF / "corpus" / "C05" / "*.json"))):
+        c = json.load(open(f)).get("case") or {}
+        if "ds" in c and "cfg" in c:
+            ctx.count("stream:corpus")
+            if c["ds"]["kind"] == "vtu" and any(t == 7 for t, _ in c["ds"]["cells"]) and len({len(k) for t, k in c["ds"]["cells"] if t == 7}) > 1:
+                continue                      # the polygon corpus cases are part of polygon_stream (same description)
+            run_case(ctx, c["ds"], V.Cfg(**c["cfg"]), 900000 + idx, pending)
+            idx += 1
+    # (a) the full configuration matrix on a few data sets
+    n_matrix = 4 if quick else 40
     cfgs = matrix_configs()
     ctx.extra["matrix_configurations"] = len(cfgs)
     for k in range(n_matrix):
@@ -623,33 +723,29 @@ def run(ctx):
             ds = gen_vtu(rng, npts=7, ncells=8)
         elif k == 1:
             ds = gen_vtp(rng)
+        elif k == 2:
+            ds = gen_vtu(rng, npts=64, ncells=15)
         else:
-            ds = gen_vtu(rng, npts=rng.choice(TARGET_N), ncells=rng.choice(TARGET_N[:20] + [0])) if rng.random() < 0.7 else gen_vtp(rng)
+            ds = gen_vtu(rng, npts=rng.choice(TARGET_N), ncells=rng.choice(TARGET_N[:20])) if rng.random() < 0.7 else gen_vtp(rng)
         for cfg in cfgs:
             run_case(ctx, ds, cfg, idx, pending)
             idx += 1
-        if len(pending) > 600:
-            flush_model(ctx, pending)
-            pending = []
-    # (b) random (configuration, data set) pairs, lengths from the boundary list
-    n_rand = 420 if quick else 20000
-    all_pending_src = list(pending)
+    tail = pending[-300:]
+    flush_model(ctx, pending)
+    pending = []
+    # (b) random (configuration, data set) pairs with array lengths on the boundaries of the configuration
+    n_rand = 1300 if quick else 30000
     for k in range(n_rand):
-        r = rng.random()
-        if r < 0.25:
-            ds = gen_vtp(rng)
-        elif r < 0.31:
-            ds = gen_vtu(rng, ncells=0)                       # empty connectivity / offsets / types / cell data arrays
-        else:
-            ds = gen_vtu(rng, npts=rng.choice(TARGET_N), ncells=rng.choice(TARGET_N[:24]))
-        run_case(ctx, ds, rand_cfg(rng), idx, pending)
+        cfg, ds = rand_pair(rng)
+        run_case(ctx, ds, cfg, idx, pending)
         idx += 1
-        if len(pending) > 600:
-            all_pending_src = pending[-200:]
+        if len(pending) >= 1500:
+            tail = pending[-300:]
             flush_model(ctx, pending)
             pending = []
-    all_pending_src = (all_pending_src + pending)[-400:]
-    dmg = damaged_ties(ctx, all_pending_src, 150 if quick else 3000) or []
+    tail = (tail + pending)[-500:]
+    dmg = damaged_ties(ctx, tail, 200 if quick else 3000) or []
+    values_tie(ctx, tail, 150 if quick else 2000)
     flush_model(ctx, pending + dmg)
     # (c) side streams
     large_block_stream(ctx, quick)
